@@ -11,6 +11,10 @@
 char *verif_optarg; int verif_optind;
 static int VG_ARGC;
 static char VG_OPTSTR[VEX_STRMAX + 1];
+/* ghost record of what the LAST -c/-t and the LAST -k argument parsed to (length and one arbitrary witness byte each): the options
+ * parse_options leaves behind must be exactly these - a counter/tweak/key that is padded, truncated or re-aligned on the way to the
+ * library makes the tool's output differ from the library's encryption under the options the user gave (C20) */
+static int VG_TWGIVEN, VG_KGIVEN; static unsigned VG_TWLEN, VG_KLEN, VG_TWW, VG_KW; static uint8_t VG_TWB, VG_KB;
 char nondet_char(void);
 static int verif_getopt(int argc, char *const argv[], const char *optstring)
 {
@@ -37,7 +41,11 @@ static int verif_getopt(int argc, char *const argv[], const char *optstring)
     __CPROVER_requires(((void *)buf == (void *)key && max_len == 48) || ((void *)buf == (void *)tweak && max_len == 16)) \
     __CPROVER_requires(str == verif_optarg) \
     __CPROVER_assigns(__CPROVER_object_upto(buf, max_len)) \
-    __CPROVER_ensures(__CPROVER_return_value <= max_len)
+    __CPROVER_assigns((void *)buf == (void *)tweak: VG_TWGIVEN, VG_TWLEN, VG_TWB) \
+    __CPROVER_assigns((void *)buf == (void *)key: VG_KGIVEN, VG_KLEN, VG_KB) \
+    __CPROVER_ensures(__CPROVER_return_value <= max_len) \
+    __CPROVER_ensures((void *)buf == (void *)tweak ==> (VG_TWGIVEN == 1 && VG_TWLEN == __CPROVER_return_value && VG_TWB == buf[VG_TWW])) \
+    __CPROVER_ensures((void *)buf == (void *)key ==> (VG_KGIVEN == 1 && VG_KLEN == __CPROVER_return_value && VG_KB == buf[VG_KW]))
 #ifndef VERIF_EX_PARSE_OPTIONS
 #define VC_parse_hex VC_parse_hex_OWN
 #else
@@ -45,17 +53,28 @@ static int verif_getopt(int argc, char *const argv[], const char *optstring)
 #define VC_parse_options_FULL \
     __CPROVER_requires(argc >= 1 && argc <= 8 && __CPROVER_is_fresh(argv, 9 * sizeof(char *))) \
     __CPROVER_requires(block_size == 16 && key_size == 0 && tweak_size == 0 && encrypt == 1) \
+    __CPROVER_requires(VG_TWGIVEN == 0 && VG_KGIVEN == 0 && VG_TWW < 16 && VG_KW < 48) \
     __CPROVER_assigns(input_filename, output_filename, block_size, key_size, tweak_size, encrypt, \
-                      __CPROVER_object_upto(key, 48), __CPROVER_object_upto(tweak, 16), verif_optarg, verif_optind, __CPROVER_object_whole(VG_OPTSTR)) \
+                      __CPROVER_object_upto(key, 48), __CPROVER_object_upto(tweak, 16), verif_optarg, verif_optind, __CPROVER_object_whole(VG_OPTSTR), \
+                      VG_TWGIVEN, VG_TWLEN, VG_TWB, VG_KGIVEN, VG_KLEN, VG_KB) \
     __CPROVER_ensures(__CPROVER_return_value == 0 || __CPROVER_return_value == 1) \
+    __CPROVER_ensures(__CPROVER_return_value == 1 ==> (VG_KGIVEN == 1 && key_size == VG_KLEN && (VG_KW < VG_KLEN ==> key[VG_KW] == VG_KB))) \
+    __CPROVER_ensures((__CPROVER_return_value == 1 && VG_TWGIVEN == 1) ==> (tweak_size == VG_TWLEN && (VG_TWW < VG_TWLEN ==> tweak[VG_TWW] == VG_TWB))) \
+    __CPROVER_ensures((__CPROVER_return_value == 1 && VG_TWGIVEN != 1) ==> (tweak_size == block_size && (VG_TWW < block_size ==> tweak[VG_TWW] == 0))) \
     __CPROVER_ensures(__CPROVER_return_value == 1 ==> \
         ((block_size == 8 || block_size == 16) && key_size >= block_size && key_size <= ((flags & 1) ? 2 * block_size : 3 * block_size) && \
          tweak_size >= 1 && tweak_size <= block_size && input_filename == argv[verif_optind] && output_filename == argv[verif_optind + 1]))
 #undef VC_parse_options
 #define VC_parse_options VC_parse_options_FULL
 #define VL_parse_options_1 \
-    __CPROVER_assigns(opt, have_key, block_size, key_size, tweak_size, encrypt, __CPROVER_object_upto(key, 48), __CPROVER_object_upto(tweak, 16), verif_optarg, verif_optind, __CPROVER_object_whole(VG_OPTSTR)) \
-    __CPROVER_loop_invariant((block_size == 8 || block_size == 16) && key_size <= 48 && tweak_size <= 16)
+    __CPROVER_assigns(opt, have_key, block_size, key_size, tweak_size, encrypt, __CPROVER_object_upto(key, 48), __CPROVER_object_upto(tweak, 16), verif_optarg, verif_optind, __CPROVER_object_whole(VG_OPTSTR), \
+                      VG_TWGIVEN, VG_TWLEN, VG_TWB, VG_KGIVEN, VG_KLEN, VG_KB) \
+    __CPROVER_loop_invariant((block_size == 8 || block_size == 16) && key_size <= 48 && tweak_size <= 16) \
+    __CPROVER_loop_invariant((VG_TWGIVEN == 0 || VG_TWGIVEN == 1) && (VG_KGIVEN == 0 || VG_KGIVEN == 1) && VG_TWW < 16 && VG_KW < 48) \
+    __CPROVER_loop_invariant(VG_TWGIVEN == 0 ==> tweak_size == 0) \
+    __CPROVER_loop_invariant(VG_TWGIVEN == 1 ==> (tweak_size == VG_TWLEN && VG_TWLEN >= 1 && tweak[VG_TWW] == VG_TWB)) \
+    __CPROVER_loop_invariant(VG_KGIVEN == have_key) \
+    __CPROVER_loop_invariant(VG_KGIVEN == 1 ==> (key_size == VG_KLEN && VG_KLEN >= 1 && key[VG_KW] == VG_KB))
 #endif
 /* the message printers write to stderr only */
 #define VC_usage __CPROVER_requires(1) __CPROVER_assigns() __CPROVER_ensures(1)
